@@ -62,6 +62,14 @@ def main() -> None:
         "not_applicable": na,
         "notes": "See DESIGN.md. Every check: ./check Cxx --tier quick|thorough ; known findings in known_findings.json.",
     }
+    allf = []
+    for f in sorted((VERIF / "known_findings").glob("C*.json")):
+        allf += json.loads(f.read_text()).get("findings", [])
+    (VERIF / "known_findings.json").write_text(json.dumps({
+        "comment": "Aggregated from known_findings/Cxx.json by tools/mkmanifest.py. Genuine defects of /repo found by the checks. "
+                   "status=open entries are printed as KNOWN-FINDING and do not fail a check; status=fixed entries suppress nothing. "
+                   "Never written at run time.",
+        "findings": allf}, indent=1, ensure_ascii=True) + "\n")
     (VERIF / "MANIFEST.json").write_text(json.dumps(man, indent=1) + "\n")
     print(f"{len(checks)} checks, {len(na)} not claimed")
 
